@@ -40,9 +40,22 @@ class RecordingGenerator(np.random.Generator):
     def __reduce__(self):
         return (_rebuild, (self.bit_generator, self._tjv_label))
 
+    _tjv_nest = 0
+
     def _ev(self, op, **kw):
+        # numpy implements some draws through others (permutation -> shuffle, multivariate_normal ->
+        # standard_normal): only the outermost call, i.e. what the code under test asked for, is an event
+        if self._tjv_nest > 0:
+            return
         kw.update(op=op, gen=self._tjv_label, key=_key_of(self.bit_generator))
         _log(kw)
+
+    def _outer(self, fn, *a, **k):
+        self._tjv_nest += 1
+        try:
+            return fn(*a, **k)
+        finally:
+            self._tjv_nest -= 1
 
     def uniform(self, low=0.0, high=1.0, size=None):
         r = super().uniform(low, high, size)
@@ -55,13 +68,13 @@ class RecordingGenerator(np.random.Generator):
         return r
 
     def choice(self, a, size=None, replace=True, p=None, axis=0, shuffle=True):
-        r = super().choice(a, size=size, replace=replace, p=p, axis=axis, shuffle=shuffle)
+        r = self._outer(super().choice, a, size=size, replace=replace, p=p, axis=axis, shuffle=shuffle)
         self._ev("choice", a=a if np.isscalar(a) else "array(%d)" % len(a), size=size, replace=replace,
                  result=np.array(r, copy=True))
         return r
 
     def multivariate_normal(self, mean, cov, size=None, **kw):
-        r = super().multivariate_normal(mean, cov, size=size, **kw)
+        r = self._outer(super().multivariate_normal, mean, cov, size=size, **kw)
         self._ev("multivariate_normal", mean=np.array(mean, dtype=float, copy=True),
                  cov=np.array(cov, dtype=float, copy=True), size=size, result=np.array(r, copy=True))
         return r
@@ -82,7 +95,7 @@ class RecordingGenerator(np.random.Generator):
         return r
 
     def permutation(self, x, axis=0):
-        r = super().permutation(x, axis=axis)
+        r = self._outer(super().permutation, x, axis=axis)
         self._ev("permutation", result=np.array(r, copy=True))
         return r
 
